@@ -85,6 +85,9 @@ func TimeFromTime64(t Time64, t0 time.Time) time.Time {
 	// the reference time, assume it's from the next era
 	if sec < tref-secondsPerEra/2 {
 		sec += secondsPerEra
+	} else if sec >= tref+secondsPerEra/2 {
+		// Likewise, if it would be too far in the future, it's from the previous era
+		sec -= secondsPerEra
 	}
 
 	// nsec := (int64(t.Fraction)*nanosecondsPerSecond + 1<<31) >> 32
